@@ -302,6 +302,9 @@ _W12 = {
     "C17": " Twelfth-wave addition: in a third of the runs the accept, close and error callbacks call Server.Addr() while they run.",
     "C19": " Twelfth-wave addition: hooks that take 0.6-2 ms of simulated time per call (healthy gap-free replies; only the result is compared with the hook-less twin then).",
 }
+_W13 = {
+    "C08": " Thirteenth-wave addition: a third of the cancellation runs cancel with a cause (context.WithCancelCause / WithTimeoutCause); the call must still report the context's error.",
+}
 for _k, _v in _W3.items():
     META[_k]["rule"] += _v
 for _k, _v in _W4.items():
@@ -319,4 +322,6 @@ for _k, _v in _W10.items():
 for _k, _v in _W11.items():
     META[_k]["rule"] += _v
 for _k, _v in _W12.items():
+    META[_k]["rule"] += _v
+for _k, _v in _W13.items():
     META[_k]["rule"] += _v
